@@ -160,6 +160,11 @@ def unary_program():
     body.append('bool f = a is bool; if (f) { write(\'T\'); } else { write(\'F\'); } try { !truth_is_defeat(a is bool); write(\'F\'); } stop { write(\'T\'); }')
     body.append('try { !truth_is_defeat(not (a is bool)); write(\'F\'); } undo { write(\'T\'); } try { !truth_is_defeat(f); write(\'F\'); } stop { write(\'T\'); }')
     body.append('if (a) { write(\'T\'); } else { write(\'F\'); } if (a is byte) { write(\'T\'); } else { write(\'F\'); }')
+    # a materialised bool must be a strict 0/1 even when its normalisation is followed by defeat
+    body.append('try { bool g2 = a is bool; !truth_is_defeat((g2 is int) == 1); write(\'F\'); } undo { write(\'T\'); }')
+    body.append('try { bool g3 = (a is byte) is bool; if (g3 == true) { !is_defeat(); } write(\'F\'); } stop { write(\'T\'); }')
+    body.append('try { bool[] g4 = [a is bool, false]; !truth_is_defeat(g4[0] and not g4[1]); write(\'F\'); } undo { write(\'T\'); }')
+    body.append('try { !truth_is_defeat((not (a is bool)) == false); write(\'F\'); } undo { write(\'T\'); }')
     return ('empty @is_you(const int[] v) {\n  for (int i = 0; i < v.length; i += 1) {\n    int a = v[i];\n    ' + '\n    '.join(body) + '\n    writeln();\n  }\n}\n')
 
 
@@ -171,6 +176,7 @@ def unary_expected(sem, vals):
         out += fmt(a & 0xFF) + b' ' + fmt((a & 0xFF) + 1) + b' '
         t = a != 0
         out += fmt(t) + fmt(t) + fmt(not t) + fmt(t) + fmt(t) + fmt(a & 0xFF != 0)
+        out += fmt(t) + fmt(a & 0xFF != 0) + fmt(t) + fmt(t)
         out += b'\n'
     return bytes(out)
 
